@@ -69,7 +69,10 @@ def run_case(case):
     with env.Scratch() as sc:
         for b in range(case["batches"]):
             prefix = "p%d_%d_%d" % (case["seed"], case["idx"], b)
-            pool = list(range(5))
+            # elements are told apart the way memento tells arguments apart (value and type), not by Python equality:
+            # now and then the pool holds values that are equal for Python and distinct for memento
+            pool = [1, 1.0, True, 0, False, 2] if rng.random() < 0.3 else list(range(5))
+            rid = repr
             kinds = {}
             for k in pool:
                 r = rng.random()
@@ -77,18 +80,19 @@ def run_case(case):
                 if r < 0.6:
                     vr = core.rng_for(prefix, k)
                     ffuncs.TABLE[key] = (lambda vr_seed=(prefix, k): domain.gen_result(core.rng_for(*vr_seed), 1))
-                    kinds[k] = "value"
+                    kinds[rid(k)] = "value"
                 elif r < 0.88:
                     ffuncs.TABLE[key] = ("__raise__", rng.choice([ValueError, KeyError, ffuncs.CustomError, ffuncs.TwoArgs]),
-                                         ("elem %d failed" % k, ) * 1)
+                                         ("elem %s failed" % rid(k), ) * 1)
                     if ffuncs.TABLE[key][1] is ffuncs.TwoArgs:
-                        ffuncs.TABLE[key] = ("__raise__", ffuncs.TwoArgs, ("elem %d" % k, "x"))
-                    kinds[k] = "fails"
+                        ffuncs.TABLE[key] = ("__raise__", ffuncs.TwoArgs, ("elem %s" % rid(k), "x"))
+                    kinds[rid(k)] = "fails"
                 else:
-                    ffuncs.TABLE[key] = ("__raise__", ffuncs.Transient, ("elem %d later" % k,))
-                    kinds[k] = "transient"
+                    ffuncs.TABLE[key] = ("__raise__", ffuncs.Transient, ("elem %s later" % rid(k),))
+                    kinds[rid(k)] = "transient"
             batch = [rng.choice(pool) for _ in range(rng.choice([0, 1, 2, 3, 4, 5, 6, 8]))]
             pre = [k for k in pool if rng.random() < 0.4]
+            pre_ids = {rid(k) for k in pre}
             raise_first = rng.random() < 0.5
             pres = rng.choice(["full", "partial_pos", "partial_name", "map"])
             skind = rng.choice(["fs", "fs+cache", "memory"])
@@ -113,13 +117,14 @@ def run_case(case):
             if skind == "fs+cache":
                 # some elements were memoized by an earlier session: on disk, but cold in the memory cache
                 cold = [k for k in pre if rng.random() < 0.5]
+                cold_ids = {rid(k) for k in cold}
                 env.set_env(sc.path("envA0"), default_storage=env.fs_backend(sc.path("A%d" % b)))
                 for k in cold:
                     outcome_of(lambda: ffuncs.pair(prefix, k))
                 out["obs"]["elements_cold_in_cache"] += len(cold)
             env.set_env(sc.path("envA"), default_storage=stA)
             for k in pre:
-                if skind != "fs+cache" or k not in cold:
+                if skind != "fs+cache" or rid(k) not in cold_ids:
                     outcome_of(lambda: ffuncs.pair(prefix, k))
             mark = REC.mark()
             if pres == "full":
@@ -130,7 +135,8 @@ def run_case(case):
                 call = lambda: ffuncs.pair.partial(prefix=prefix).call_batch([{"k": k} for k in batch], raise_first_exception=raise_first)
             else:
                 # the range is any iterable: sequences, views and one-shot iterators
-                rkind = rng.choice(["list", "tuple", "generator", "iter", "reversed", "map", "dict_keys"])
+                rkind = rng.choice(["list", "tuple", "generator", "iter", "reversed", "map", "dict_keys"] if len(pool) == 5 else
+                                   ["list", "tuple", "generator", "iter", "reversed"])  # (the last two kinds would merge / retype twins)
                 mk_range = {"list": lambda: list(batch), "tuple": lambda: tuple(batch), "generator": lambda: (k for k in batch),
                             "iter": lambda: iter(list(batch)), "reversed": lambda: reversed(list(reversed(batch))),
                             "map": lambda: map(int, [str(k) for k in batch]), "dict_keys": lambda: dict.fromkeys(batch).keys()}[rkind]
@@ -152,22 +158,34 @@ def run_case(case):
             else:
                 res = got[1]
                 if pres == "map":
-                    if not isinstance(res, dict) or list(res) != list(dict.fromkeys(batch)):
+                    exp = {}
+                    for k in batch:
+                        exp[k] = None
+                    if not isinstance(res, dict) or [rid(k) for k in res] != [rid(k) for k in exp]:
                         fail("map_over_range does not return one entry per value of the range, in range order",
                              "%s: %s" % (label, domain.describe(res, 200)))
                         res = None
                     else:
-                        res = [res[k] for k in batch]
+                        # Python-equal values share a dictionary slot; the later element's result stays there
+                        last = {}
+                        for i, k in enumerate(batch):
+                            last[k] = i
+                        keep = sorted(last.values())
+                        res = [res[batch[i]] for i in keep]
+                        indiv_cmp = [indiv[i] for i in keep]
+                        batch_cmp = [batch[i] for i in keep]
                 if res is not None:
-                    if len(res) != len(batch):
+                    if pres != "map":
+                        indiv_cmp, batch_cmp = indiv, batch
+                    if len(res) != len(batch_cmp):
                         fail("batch result has the wrong length", "%s: %d results" % (label, len(res)))
                     else:
-                        for i, (r, o) in enumerate(zip(res, indiv)):
+                        for i, (r, o) in enumerate(zip(res, indiv_cmp)):
                             out["obs"]["slots_compared"] += 1
                             slot = ("raise", r) if isinstance(r, Exception) else ("ret", r)
                             if not same_outcome(slot, o):
                                 fail("a batch slot differs from the individual call",
-                                     "%s: slot %d (element %d): batch %s, individual %s" % (label, i, batch[i],
+                                     "%s: slot %d (element %r): batch %s, individual %s" % (label, i, batch_cmp[i],
                                                                                          domain.describe(slot, 120), domain.describe(o, 120)))
             # store state
             stateA = store_state(stA, ffuncs.pair)
@@ -179,17 +197,19 @@ def run_case(case):
                          label, len(stateA), len(stateB), sorted(k[1][:8] for k in set(stateA) ^ set(stateB))))
             # body executions
             runs = collections.Counter(e[1][0] for e in events if e[0] == "pair")
-            for k in set(batch):
+            for k in {rid(k): k for k in batch}.values():
                 n = runs.get("%s|%s" % (prefix, k), 0)
-                if kinds[k] == "transient":
+                if kinds[rid(k)] == "transient":
                     continue
-                want = 0 if k in pre else 1
+                want = 0 if rid(k) in pre_ids else 1
                 out["obs"]["element_body_counts_checked"] += 1
+                if len(pool) == 6:
+                    out["obs"]["typed_twin_elements_checked"] += 1
                 if n != want:
                     fail("a distinct batch element's body ran the wrong number of times",
-                         "%s: element %d ran %d times, expected %d" % (label, k, n, want))
-            if (len(set(batch)) < len(batch) and any(kinds[k] == "fails" for k in batch)
-                    and any(k in pre for k in batch) and any(k not in pre for k in batch)):
+                         "%s: element %r ran %d times, expected %d" % (label, k, n, want))
+            if (len({rid(k) for k in batch}) < len(batch) and any(kinds[rid(k)] == "fails" for k in batch)
+                    and any(rid(k) in pre_ids for k in batch) and any(rid(k) not in pre_ids for k in batch)):
                 out["nontrivial"].append("%s" % prefix)
             if b == 0:
                 out["sample"] = {"batch": batch, "kinds": kinds, "pre_memoized": pre, "raise_first": raise_first,
@@ -201,4 +221,4 @@ def run_case(case):
 
 def conclude(agg):
     return core.first(core.need(agg, "slots_compared", 300), core.need(agg, "store_states_compared", 200),
-                      core.need(agg, "raise_first_checked", 30), core.need(agg, "element_body_counts_checked", 300)), {}
+                      core.need(agg, "raise_first_checked", 30), core.need(agg, "element_body_counts_checked", 300), core.need(agg, "typed_twin_elements_checked", 50)), {}
